@@ -714,16 +714,17 @@ def plan_C18(ctx):
         "OffsMod = 32 explores every target offset up to the wrap boundary on the model; every (URI, offset, span) is executed on the real "
         "AdjustOffs / Short / Long / Flat / Truncate (drift); drifted and sampled real results are judged by TLC (Judge_URI.tla: "
         "RelocateReal, ViewsReal). Known finding: views of a tel: URI with a password.")
-    r = vlib.run_tlc("MC_URIAdj", "MC_URIAdj.cfg", workers=8, timeout=1500)
-    if not r["ok"]: raise Machinery("TLC failed on MC_URIAdj:\n%s" % r["tail"])
-    ctx.states += r["distinct"]; ctx.transitions += r["generated"]
-    drift_out = os.path.join(r["dir"], "drift.ndjson")
-    rp = vlib.replay(r["out"], drift_out=drift_out)
-    x = rp["extra"]; ctx.records += x["records"]; ctx.impl_traces += x["records"]; ctx.drift += x["drift"]
-    ctx.tlc_runs.append(dict(module="MC_URIAdj", cfg="MC_URIAdj.cfg", states=r["distinct"], records=x["records"], drift=x["drift"], tlc_wall_s=round(r["wall"], 1)))
-    if x["drift"]: ctx.judge("Judge_URI", drift_out)
-    audit_sample(ctx, r["out"], 499 if ctx.quick else 97)
-    shutil.rmtree(r["dir"], ignore_errors=True)
+    for adjcfg in ("MC_URIAdj.cfg", "MC_URIAdj_core.cfg"):
+        r = vlib.run_tlc("MC_URIAdj", adjcfg, workers=8, timeout=1500)
+        if not r["ok"]: raise Machinery("TLC failed on MC_URIAdj:\n%s" % r["tail"])
+        ctx.states += r["distinct"]; ctx.transitions += r["generated"]
+        drift_out = os.path.join(r["dir"], "drift.ndjson")
+        rp = vlib.replay(r["out"], drift_out=drift_out)
+        x = rp["extra"]; ctx.records += x["records"]; ctx.impl_traces += x["records"]; ctx.drift += x["drift"]
+        ctx.tlc_runs.append(dict(module="MC_URIAdj", cfg=adjcfg, states=r["distinct"], records=x["records"], drift=x["drift"], tlc_wall_s=round(r["wall"], 1)))
+        if x["drift"]: ctx.judge("Judge_URI", drift_out)
+        audit_sample(ctx, r["out"], 499 if ctx.quick else 97)
+        shutil.rmtree(r["dir"], ignore_errors=True)
     r2 = vlib.run_tlc("MC_URIAdj", "MC_URIAdj_wrap32.cfg", workers=8, timeout=1500)
     if not r2["ok"]: raise Machinery("TLC failed on MC_URIAdj_wrap32:\n%s" % r2["tail"])
     ctx.states += r2["distinct"]; ctx.transitions += r2["generated"]
@@ -753,7 +754,7 @@ def plan_C09(ctx):
         "ParseAllContactValues (capacities 0 1 2 4), ParseAllPAIValues, ParseHeaders and ParseSIPMsg. Keys the statement does not "
         "determine (Name with LWS before '<', duplicate parameter names ...) are not compared.")
     slices = ["single", "lists", "inmsg", "listsws", "lws", "params3"]
-    gen_corpus(ctx, 2 if ctx.quick else 3, "cexp", "C09")
+    gen_corpus(ctx, 3 if ctx.quick else 4, "cexp", "C09")
     for sl in slices:
         ctx.tlc("MC_GenNameAddr", "MC_GenNameAddr_%s.cfg" % sl, workers=8, min_records=1000)
     ctx.nontrivial = ctx.records
